@@ -342,11 +342,14 @@ class StringDataEncoding(DataEncoding):
                                  "This is an error since strings must be an integer numbers of bytes.")
             parsed_string = raw_string_buffer.read_as_bytes(strlen_bits).decode(self._python_codec)
         elif self.termination_character is not None:
-            try:
-                tchar_byte_index = raw_string_buffer.index(self.termination_character)
-            except ValueError as exc:
+            # A termination character starts on a character boundary: 2 bytes wide in UTF-16, 4 in UTF-32
+            char_width = 2 if self.encoding.startswith('UTF-16') else 4 if self.encoding.startswith('UTF-32') else 1
+            tchar_byte_index = raw_string_buffer.find(self.termination_character)
+            while tchar_byte_index > 0 and tchar_byte_index % char_width:
+                tchar_byte_index = raw_string_buffer.find(self.termination_character, tchar_byte_index + 1)
+            if tchar_byte_index < 0:
                 raise ValueError(f"Reached the end of the raw string buffer {raw_string_buffer} without finding the "
-                                 f"termination character {self.termination_character}") from exc
+                                 f"termination character {self.termination_character}")
             parsed_string = raw_string_buffer.read_as_bytes(tchar_byte_index * 8).decode(self._python_codec)
         else:
             # Indicates there is no further parsing. The raw string value is the whole string value.
